@@ -69,6 +69,8 @@ type LexGrammar struct {
 	Defs  []LexDef
 	Lits  []string
 	Atoms []Atom
+	// Unused: tokens of the lexical part that the generated syntax part does not mention
+	Unused map[string]bool
 }
 
 type Atom struct {
@@ -160,7 +162,9 @@ func (g *LexGrammar) textAtoms() []int {
 	return as
 }
 
-// reps returns representative runes of an atom (first, last, middle).
+// reps returns representative runes of an atom: first, last, middle (text is built from these
+// three) and, for wide atoms, further interior points (second, last but one, quartiles, and the
+// UTF-8 width boundaries inside the atom) used only for probing the transition functions.
 func (a Atom) reps() []rune {
 	rs := []rune{a.Lo}
 	if a.Hi != a.Lo {
@@ -168,6 +172,28 @@ func (a Atom) reps() []rune {
 		if m := a.Lo + (a.Hi-a.Lo)/2; m != a.Lo && m != a.Hi {
 			rs = append(rs, m)
 		}
+	}
+	return rs
+}
+
+func (a Atom) probes() []rune {
+	rs := a.reps()
+	seen := map[rune]bool{}
+	for _, r := range rs {
+		seen[r] = true
+	}
+	add := func(r rune) {
+		if r > a.Lo && r < a.Hi && !seen[r] {
+			seen[r] = true
+			rs = append(rs, r)
+		}
+	}
+	add(a.Lo + 1)
+	add(a.Hi - 1)
+	add(a.Lo + (a.Hi-a.Lo)/4)
+	add(a.Lo + 3*((a.Hi-a.Lo)/4))
+	for _, b := range []rune{0x7f, 0x80, 0xff, 0x100, 0x7ff, 0x800, 0xd7ff, 0xe000, 0xfffd, 0xffff, 0x10000, 0x10fffe} {
+		add(b)
 	}
 	return rs
 }
@@ -301,7 +327,7 @@ func (g *LexGrammar) render() string {
 		alts = append(alts, quoteLit(l))
 	}
 	for _, d := range g.Defs {
-		if d.Kind == "tok" {
+		if d.Kind == "tok" && !g.Unused[d.Name] {
 			alts = append(alts, d.Name)
 		}
 	}
@@ -664,6 +690,16 @@ func genLexGrammar1(rng *rand.Rand, o lexGenOpts) (*LexGrammar, []string) {
 			}
 			seen[s] = true
 			g.Lits = append(g.Lits, s)
+		}
+	}
+	// some tokens are declared but not used by the syntax part (they must still be numbered
+	// consistently in token map, lexer and parser)
+	if len(g.Lits) > 0 {
+		g.Unused = map[string]bool{}
+		for _, d := range g.Defs {
+			if d.Kind == "tok" && rng.Intn(3) == 0 {
+				g.Unused[d.Name] = true
+			}
 		}
 	}
 	g.computeAtoms()
